@@ -273,6 +273,7 @@ def generated_code(R, tier):
     cases = []
     ops = list(gv.BIN) + list(gv.UN)
     n = 150 if tier == 'quick' else 3000
+    wide_every = 38 if tier == 'quick' else 60
     for it in range(n):
         spec = gen_spec(rng)
         graded = rng.random() < 0.25 and 'fromname' not in spec
@@ -296,6 +297,20 @@ def generated_code(R, tier):
             keys = [tuple(alg.indices_for_grades[tuple(sorted(rng.sample(range(d + 1), rng.randint(1, d + 1))))]) for _ in range(ar)]
         else:
             keys = [oc.random_keys(rng, alg)[0] for _ in range(ar)]
+        if it % wide_every == wide_every - 1:
+            # wide results (more than 32 output expressions: d = 5, 6, a sparse left operand and whole grades on the right), cse on
+            d = 6
+            spec = {'sig': [rng.choice((1, 1, -1, 0)) for _ in range(d)], 'start': None}
+            graded, sym, cse = False, False, True
+            alg = algs.make_impl(spec, cse=True)
+            op = rng.choice(['sw', 'sw', 'sw', 'proj'])        # the operators whose text goes through sympy.cse
+            ar = 2
+            canon = list(alg.canon2bin.values())
+            kx = tuple(rng.sample(canon, rng.randint(2, 4)))
+            gs = rng.choice([(2, 3), (3, 4), (2, 3, 4)])
+            ky = tuple(alg.indices_for_grades[gs])
+            keys = [kx, ky]
+            R.count('generated-code:wide')
         oname = {'cse': cse, 'graded': graded, 'symbolcls': 'sympy' if sym else 'default'}
         R.count(f'generated-code:d={d}'); R.count('generated-code:op=' + op); R.count(f'generated-code:cse={cse}')
         R.count(f'generated-code:graded={graded}'); R.count('generated-code:basis=' + algs.kind(spec))
